@@ -29,6 +29,13 @@ mod key_transforms {
   include!("mapper_oracles.rs");
 }
 
+mod keyboard_listing { include!(concat!(env!("VERIF_REPO_SRC"), "/keyboard_listing.rs")); }
+mod tablet_mode_switch_reader { include!(concat!(env!("VERIF_REPO_SRC"), "/tablet_mode_switch_reader.rs")); }
+mod remapping_loop {
+  include!(concat!(env!("VERIF_REPO_SRC"), "/remapping_loop.rs"));
+  include!("loop_probe.rs");
+}
+
 // the N2-normalised text of key_transforms.rs (written by the assembler), for differential validation
 #[cfg(n2_validation)]
 mod key_transforms_n2 {
@@ -43,6 +50,7 @@ fn main() {
     "explore" => {
       let prop = &args[2]; let secs: f64 = args[3].parse().unwrap(); let seed: u64 = args[4].parse().unwrap();
       if prop == "C13" || prop == "C14" { std::process::exit(loader_probe::explore(prop, secs, seed)); }
+      if prop == "C10" || prop == "C11" || prop == "C12" || prop == "C20" { std::process::exit(remapping_loop::explore(prop, secs, seed)); }
       std::process::exit(key_transforms::explore(prop, secs, seed));
     },
     "c18" => {
@@ -53,6 +61,7 @@ fn main() {
       let prop = &args[2];
       let text = std::fs::read_to_string(&args[3]).unwrap();
       if prop == "C13" || prop == "C14" { std::process::exit(loader_probe::replay(prop, &text)); }
+      if prop == "C10" || prop == "C11" || prop == "C12" || prop == "C20" { std::process::exit(remapping_loop::replay(prop, &text)); }
       std::process::exit(key_transforms::replay(prop, &text));
     },
     #[cfg(n2_validation)]
